@@ -317,7 +317,9 @@ class AsynchronousDeferredRunTest(_DeferredRunTest):
         last_exception = None
         while self.case._cleanups:
             f, args, kwargs = self.case._cleanups.pop()
-            d = defer.maybeDeferred(f, *args, **kwargs)
+            # (Called through a closure: maybeDeferred(f, *args, **kwargs) would
+            # claim a keyword argument that happens to be named 'f'.)
+            d = defer.maybeDeferred(lambda: f(*args, **kwargs))
             try:
                 yield d
             except GeneratorExit:
